@@ -38,6 +38,16 @@ var vhPalette = &Palette{
 
 var vhPlain = &Palette{}
 
+// vhPaletteANSI uses the real shape of the default palette's codes (digits that
+// also occur in hexadecimal addresses).
+var vhPaletteANSI = &Palette{
+	EOLReset: "\x1b[39m\x1b[m", RoutineFirst: "\x1b[1;35m", Routine: "\x1b[35m", CreatedBy: "\x1b[90m", Race: "\x1b[91m",
+	Package: "\x1b[1;39m", SrcFile: "\x1b[39m\x1b[m", FuncMain: "\x1b[1;33m", FuncLocationUnknown: "\x1b[37m",
+	FuncLocationUnknownExported: "\x1b[1;37m", FuncGoMod: "\x1b[31m", FuncGoModExported: "\x1b[1;31m",
+	FuncGOPATH: "\x1b[36m", FuncGOPATHExported: "\x1b[1;36m", FuncGoPkg: "\x1b[34m", FuncGoPkgExported: "\x1b[1;34m",
+	FuncStdLib: "\x1b[32m", FuncStdLibExported: "\x1b[1;32m", Arguments: "\x1b[39m\x1b[m",
+}
+
 func vhBucket(tag string, ncalls int, dirLens, srcLens []int) *stack.Bucket {
 	b := &stack.Bucket{IDs: []int{1, 2}}
 	b.State = vhText(tag+".state", 2)
@@ -181,7 +191,12 @@ func VH_C16_Buckets(k, shape, pfmt, rx int) {
 func VH_C16_Goroutines(k, rx int) {
 	s := &stack.Snapshot{}
 	for i := 0; i < k; i++ {
-		g := &stack.Goroutine{ID: 10 + i, First: i == 0, RaceAddr: 0x1000, RaceWrite: i%2 == 0}
+		g := &stack.Goroutine{ID: 10 + i, First: i == 0, RaceAddr: []uint64{0xc000012339, 0xc000012343, 0x1000}[i], RaceWrite: i%2 == 0}
+		if i == 1 {
+			cb := stack.Call{}
+			cb.Func.DirName, cb.Func.Name, cb.SrcName, cb.Line = "main", "h", "c.go", 9
+			g.CreatedBy.Calls = []stack.Call{cb}
+		}
 		g.State = vhText("g"+string(rune('0'+i))+".state", 2)
 		c := stack.Call{}
 		c.Func.DirName = vhText("g"+string(rune('0'+i))+".dir", 1+i)
@@ -205,6 +220,11 @@ func VH_C16_Goroutines(k, rx int) {
 		vAssert(out.parts[2*i+1] == vhPalette.StackLines(&g.Signature, srcLen, pkgLen, pf), "goroutine stack lines in order")
 		vAssert(srcLen >= len(pf.formatCall(&g.Stack.Calls[0])) && pkgLen >= len(g.Stack.Calls[0].Func.DirName), "columns wide enough for every goroutine")
 	}
+	// colour independence, with codes shaped like the default palette's
+	col, plain := &vhOut{}, &vhOut{}
+	_ = writeGoroutinesToConsole(col, vhPaletteANSI, s, pf, false, nil, nil)
+	_ = writeGoroutinesToConsole(plain, vhPlain, s, pf, false, nil, nil)
+	vAssert(vhStrip(vhJoin(col.parts)) == vhJoin(plain.parts), "removing the escape sequences of a race rendering gives the uncoloured output")
 	// filter / match split
 	vhFilter := vhFilters[rx]
 	fo, mo := &vhOut{}, &vhOut{}
